@@ -2,9 +2,9 @@ package main
 
 import (
 	"encoding/json"
+	"fmt"
 	"go/ast"
 	"go/types"
-	"fmt"
 	"os"
 	"path/filepath"
 	"sort"
